@@ -658,7 +658,9 @@ func (e *Engine) execAlloc(fr *Frame, st *State, v *ssa.Alloc) {
 	if name == "" {
 		name = v.Name()
 	}
-	if !v.Heap {
+	if !v.Heap || !allocEscapes(v) {
+		// (a variable captured only by closures that this function itself defers or calls
+		// is kept as a local cell: no callee can reach it)
 		cell := fr.cellOf[v]
 		if cell == nil {
 			cell = e.newCell(fr.prefix+name, t)
@@ -676,6 +678,79 @@ func (e *Engine) execAlloc(fr *Frame, st *State, v *ssa.Alloc) {
 	p := &PtrSV{Kind: pkHeap, Ref: ref, Root: t}
 	fr.regs[v] = p
 	e.storeRaw(st, p, t, e.zero(t))
+}
+
+// allocEscapes: the address of a heap-allocated local may be seen outside this function
+// and the closures it runs itself (deferred or called in place).
+func allocEscapes(v *ssa.Alloc) bool {
+	refs := v.Referrers()
+	if refs == nil {
+		return true
+	}
+	for _, r := range *refs {
+		switch u := r.(type) {
+		case *ssa.Store:
+			if u.Val == ssa.Value(v) {
+				return true
+			}
+		case *ssa.UnOp, *ssa.DebugRef:
+		case *ssa.MakeClosure:
+			crefs := u.Referrers()
+			if crefs == nil {
+				return true
+			}
+			for _, cr := range *crefs {
+				switch cu := cr.(type) {
+				case *ssa.Defer:
+					if cu.Call.Value != ssa.Value(u) {
+						return true
+					}
+				case *ssa.Call:
+					if cu.Call.Value != ssa.Value(u) {
+						return true
+					}
+				case *ssa.DebugRef:
+				default:
+					return true
+				}
+			}
+			// the closure itself must not let the address out
+			fn, ok := u.Fn.(*ssa.Function)
+			if !ok {
+				return true
+			}
+			for i, b := range u.Bindings {
+				if b != ssa.Value(v) || i >= len(fn.FreeVars) {
+					continue
+				}
+				if freeVarEscapes(fn.FreeVars[i], 0) {
+					return true
+				}
+			}
+		default:
+			return true
+		}
+	}
+	return false
+}
+
+func freeVarEscapes(fv *ssa.FreeVar, depth int) bool {
+	refs := fv.Referrers()
+	if refs == nil {
+		return false
+	}
+	for _, r := range *refs {
+		switch u := r.(type) {
+		case *ssa.Store:
+			if u.Val == ssa.Value(fv) {
+				return true
+			}
+		case *ssa.UnOp, *ssa.DebugRef:
+		default:
+			return true
+		}
+	}
+	return false
 }
 
 func isDeferStack(t types.Type) bool {
